@@ -15,6 +15,8 @@ RunEv(e) ==
     /\ Clause("evaluation-budget", e.nevalok = e.n * NGens(e))
     /\ Clause("generation-tags", e.tags = [ i \in 1..NGens(e) |-> FirstTag(e) + i - 1 ])
     /\ Clause("generation-sizes", Len(e.gens) = NGens(e) /\ \A t \in DOMAIN e.gens : Len(e.gens[t]) = e.n)
+    /\ Clause("unconstrained-designs-rank-alike",          \* without constraints no recorded design is preferred for its feasibility marker
+              e.unconstrained => \A t, u \in DOMAIN e.gens : \A i \in DOMAIN e.gens[t], j \in DOMAIN e.gens[u] : e.gens[t][i].m = e.gens[u][j].m)
     /\ Clause("no-design-repeated-within-a-generation",
               e.alg = "nsga2" => \A t \in DOMAIN e.gens : t > 1 => Cardinality(MemberKeys(e.gens[t])) = Len(e.gens[t]))
     /\ Clause("nsga2-step-relation",
